@@ -1185,4 +1185,777 @@ theorem GC.invert_G (c r : GC) (h : c.invert = .ok r) (v : String) : r.den v = !
   GC.invert_sem (fun a => a.den v) (fun _ => True) (fun a b _ hab => Atom.invert_den hab v) c
     (GC.atomsQ_true c) r h
 
+/-! ### `allows_all` / `allows_any` are never wrong (single-valued `==`/`!=` fragment) -/
+
+/-- every atom of the object has operator `==` or `!=` -/
+def GS.frag : GS → Bool
+  | .atom a => a.isEqNe
+  | .multi _ cs => cs.all Atom.isEqNe
+  | _ => true
+
+def GC.frag : GC → Bool
+  | .s c => c.frag
+  | .union ms => ms.all GS.frag
+
+theorem GS.frag_of_wfG {c : GS} (h : c.wfG = true) : c.frag = true := by
+  cases c with
+  | any => rfl
+  | empty => rfl
+  | atom a => simp only [GS.wfG, Bool.and_eq_true] at h; exact h.2
+  | multi x cs =>
+    have := (wfG_multi h).2
+    simp only [GS.frag, List.all_eq_true]
+    intro c hc; simp [Atom.isEqNe, (this c hc).2]
+
+theorem GC.frag_of_wfG {c : GC} (h : c.wfG = true) : c.frag = true := by
+  cases c with
+  | s c => exact GS.frag_of_wfG h
+  | union ms =>
+    simp only [GC.wfG, Bool.and_eq_true, List.all_eq_true] at h
+    simp only [GC.frag, List.all_eq_true]
+    exact fun m hm => GS.frag_of_wfG (h.2 m hm)
+
+theorem isEqNe_iff {a : Atom} : a.isEqNe = true ↔ a.op = .eq ∨ a.op = .ne := by
+  simp [Atom.isEqNe]
+
+theorem Atom.allowsAllA_sound (a o : Atom) (ho : o.isEqNe = true) (h : a.allowsAllA o = true) (v : String)
+    (hv : o.den v = true) : a.den v = true := by
+  unfold Atom.allowsAllA at h
+  rcases isEqNe_iff.mp ho with hoe | hon
+  · simp only [hoe, beq_self_eq_true, if_true] at h
+    have : v = o.value := by simpa [Atom.den_eq hoe] using hv
+    rw [this, ← Atom.allowsV_eq_den]; exact h
+  · have e1 : (o.op == Op.eq) = false := by simp [hon]
+    have e2 : (o.op == Op.in_) = false := by simp [hon]
+    have e3 : (o.op == Op.nc) = false := by simp [hon]
+    simp only [e1, e2, e3, Bool.false_and, Bool.false_eq_true, if_false] at h
+    have : a = o := by simpa using h
+    rw [this]; exact hv
+
+theorem Atom.allowsAllS_sound (a : Atom) (o : GS) (ho : o.frag = true) (h : a.allowsAllS o = true) (v : String)
+    (hv : o.den v = true) : a.den v = true := by
+  cases o with
+  | any => simp [Atom.allowsAllS] at h
+  | empty => simp [GS.den, GS.sem] at hv
+  | atom o => exact Atom.allowsAllA_sound a o ho h v hv
+  | multi y cs =>
+    simp only [Atom.allowsAllS, List.any_eq_true] at h
+    obtain ⟨c, hc, hac⟩ := h
+    simp only [GS.frag, List.all_eq_true] at ho
+    simp only [GS.den, GS.sem, List.all_eq_true] at hv
+    exact Atom.allowsAllA_sound a c (ho c hc) hac v (hv c hc)
+
+theorem GS.allowsAllS_sound (a o : GS) (ho : o.frag = true) (h : a.allowsAllS o = true) (v : String)
+    (hv : o.den v = true) : a.den v = true := by
+  cases a with
+  | any => rfl
+  | empty =>
+    cases o <;> simp [GS.allowsAllS, GS.isEmpty] at h
+    simp [GS.den, GS.sem] at hv
+  | atom a => exact Atom.allowsAllS_sound a o ho h v hv
+  | multi x cs =>
+    cases o with
+    | multi y ds =>
+      simp only [GS.allowsAllS, List.all_eq_true, List.contains_eq_mem, decide_eq_true_eq] at h
+      simp only [GS.den, GS.sem, List.all_eq_true] at hv ⊢
+      exact fun c hc => hv c (h c hc)
+    | any =>
+      simp only [GS.allowsAllS, List.all_eq_true] at h
+      simp only [GS.den, GS.sem, List.all_eq_true]
+      exact fun c hc => Atom.allowsAllS_sound c _ ho (h c hc) v hv
+    | empty => simp [GS.den, GS.sem] at hv
+    | atom o =>
+      simp only [GS.allowsAllS, List.all_eq_true] at h
+      simp only [GS.den, GS.sem, List.all_eq_true]
+      exact fun c hc => Atom.allowsAllS_sound c _ ho (h c hc) v hv
+
+theorem Atom.allowsAll_union_sound (a : Atom) (ns : List GS) (ho : (GC.union ns).frag = true)
+    (h : a.allowsAll (.union ns) = true) (v : String) (hv : (GC.union ns).den v = true) : a.den v = true := by
+  simp only [Atom.allowsAll, List.all_eq_true] at h
+  simp only [GC.den, GC.sem, List.any_eq_true] at hv
+  simp only [GC.frag, List.all_eq_true] at ho
+  obtain ⟨n, hn, hnv⟩ := hv
+  exact Atom.allowsAllS_sound a n (ho n hn) (h n hn) v hnv
+
+theorem GS.allowsAll_sound (a : GS) (o : GC) (ho : o.frag = true) (h : a.allowsAll o = true) (v : String)
+    (hv : o.den v = true) : a.den v = true := by
+  cases o with
+  | s o =>
+    have h' : a.allowsAllS o = true := by cases a <;> exact h
+    exact GS.allowsAllS_sound a o ho h' v hv
+  | union ns =>
+    cases a with
+    | any => rfl
+    | empty => simp [GS.allowsAll] at h
+    | atom a => exact Atom.allowsAll_union_sound a ns ho h v hv
+    | multi x cs =>
+      simp only [GS.allowsAll, List.all_eq_true] at h
+      simp only [GS.den, GS.sem, List.all_eq_true]
+      exact fun c hc => Atom.allowsAll_union_sound c ns ho (h c hc) v hv
+
+/-- `allows_all` answering yes is never wrong (needs only that the *second* operand is in the fragment) -/
+theorem GC.allowsAll_sound (a o : GC) (ho : o.frag = true) (h : a.allowsAll o = true) (v : String)
+    (hv : o.den v = true) : a.den v = true := by
+  cases a with
+  | s a => exact GS.allowsAll_sound a o ho h v hv
+  | union ms =>
+    cases o with
+    | s o =>
+      simp only [GC.allowsAll, List.any_eq_true] at h
+      obtain ⟨c, hc, hco⟩ := h
+      simp only [GC.den, GC.sem, List.any_eq_true]
+      exact ⟨c, hc, GS.allowsAllS_sound c o ho hco v hv⟩
+    | union ns =>
+      simp only [GC.allowsAll, List.all_eq_true, List.any_eq_true] at h
+      simp only [GC.den, GC.sem, List.any_eq_true] at hv ⊢
+      simp only [GC.frag, List.all_eq_true] at ho
+      obtain ⟨n, hn, hnv⟩ := hv
+      obtain ⟨c, hc, hcn⟩ := h n hn
+      exact ⟨c, hc, GS.allowsAllS_sound c n (ho n hn) hcn v hnv⟩
+
+theorem Atom.allowsAnyS_sound (a : Atom) (o : GS) (ha : a.isEqNe = true) (ho : o.frag = true) (v : String)
+    (hav : a.den v = true) (hov : o.den v = true) : a.allowsAnyS o = true := by
+  unfold Atom.allowsAnyS
+  rcases isEqNe_iff.mp ha with hae | han
+  · simp only [hae, beq_self_eq_true, if_true]
+    have : v = a.value := by simpa [Atom.den_eq hae] using hav
+    rw [GS.allowsV_eq_den, ← this]; exact hov
+  · have e1 : (a.op == Op.eq) = false := by simp [han]
+    simp only [e1, Bool.false_eq_true, if_false]
+    cases o with
+    | any => rfl
+    | empty => simp [GS.den, GS.sem] at hov
+    | multi _ _ => rfl
+    | atom o =>
+      simp only
+      unfold Atom.allowsAnyA
+      rcases isEqNe_iff.mp ho with hoe | hon
+      · simp only [hoe, beq_self_eq_true, if_true]
+        have : v = o.value := by simpa [GS.den, GS.sem, Atom.den_eq hoe] using hov
+        rw [Atom.allowsV_eq_den, ← this]; exact hav
+      · simp [hon, han]
+
+theorem Atom.allowsAny_union_sound (a : Atom) (ns : List GS) (ha : a.isEqNe = true)
+    (ho : (GC.union ns).frag = true) (v : String) (hav : a.den v = true) (hov : (GC.union ns).den v = true) :
+    a.allowsAny (.union ns) = true := by
+  unfold Atom.allowsAny
+  rcases isEqNe_iff.mp ha with hae | han
+  · simp only [hae, beq_self_eq_true, if_true]
+    have : v = a.value := by simpa [Atom.den_eq hae] using hav
+    rw [GC.allowsV_eq_den, ← this]; exact hov
+  · have e1 : (a.op == Op.eq) = false := by simp [han]
+    simp only [e1, Bool.false_eq_true, if_false, List.any_eq_true]
+    simp only [GC.den, GC.sem, List.any_eq_true] at hov
+    simp only [GC.frag, List.all_eq_true] at ho
+    obtain ⟨n, hn, hnv⟩ := hov
+    exact ⟨n, hn, Atom.allowsAnyS_sound a n ha (ho n hn) v hav hnv⟩
+
+theorem GS.allowsAnyS_sound (a o : GS) (ha : a.frag = true) (ho : o.frag = true) (v : String)
+    (hav : a.den v = true) (hov : o.den v = true) : a.allowsAnyS o = true := by
+  cases a with
+  | any => rfl
+  | empty => simp [GS.den, GS.sem] at hav
+  | atom a => exact Atom.allowsAnyS_sound a o ha ho v hav hov
+  | multi x cs =>
+    cases o with
+    | any => rfl
+    | empty => simp [GS.den, GS.sem] at hov
+    | multi _ _ => rfl
+    | atom o =>
+      simp only [GS.allowsAnyS]
+      rcases isEqNe_iff.mp ho with hoe | hon
+      · simp only [hoe, beq_self_eq_true, if_true]
+        have : v = o.value := by simpa [GS.den, GS.sem, Atom.den_eq hoe] using hov
+        rw [GS.allowsV_eq_den, ← this]; exact hav
+      · simp [hon]
+
+theorem GS.allowsAny_sound (a : GS) (o : GC) (ha : a.frag = true) (ho : o.frag = true) (v : String)
+    (hav : a.den v = true) (hov : o.den v = true) : a.allowsAny o = true := by
+  cases o with
+  | s o =>
+    have : a.allowsAny (.s o) = a.allowsAnyS o := by cases a <;> rfl
+    rw [this]; exact GS.allowsAnyS_sound a o ha ho v hav hov
+  | union ns =>
+    cases a with
+    | any => rfl
+    | empty => simp [GS.den, GS.sem] at hav
+    | atom a => exact Atom.allowsAny_union_sound a ns ha ho v hav hov
+    | multi x cs =>
+      simp only [GS.allowsAny, List.any_eq_true, List.all_eq_true]
+      simp only [GC.den, GC.sem, List.any_eq_true] at hov
+      simp only [GC.frag, List.all_eq_true] at ho
+      simp only [GS.frag, List.all_eq_true] at ha
+      simp only [GS.den, GS.sem, List.all_eq_true] at hav
+      obtain ⟨n, hn, hnv⟩ := hov
+      exact ⟨n, hn, fun c hc => Atom.allowsAnyS_sound c n (ha c hc) (ho n hn) v (hav c hc) hnv⟩
+
+/-- `allows_any` answering no is never wrong: a common value forces the answer yes -/
+theorem GC.allowsAny_sound (a o : GC) (ha : a.frag = true) (ho : o.frag = true) (v : String)
+    (hav : a.den v = true) (hov : o.den v = true) : a.allowsAny o = true := by
+  cases a with
+  | s a => exact GS.allowsAny_sound a o ha ho v hav hov
+  | union ms =>
+    simp only [GC.den, GC.sem, List.any_eq_true] at hav
+    simp only [GC.frag, List.all_eq_true] at ha
+    obtain ⟨m, hm, hmv⟩ := hav
+    cases o with
+    | s o =>
+      simp only [GC.allowsAny, List.any_eq_true]
+      exact ⟨m, hm, GS.allowsAnyS_sound m o (ha m hm) ho v hmv hov⟩
+    | union ns =>
+      simp only [GC.allowsAny, List.any_eq_true]
+      simp only [GC.den, GC.sem, List.any_eq_true] at hov
+      simp only [GC.frag, List.all_eq_true] at ho
+      obtain ⟨n, hn, hnv⟩ := hov
+      exact ⟨m, hm, n, hn, GS.allowsAnyS_sound m n (ha m hm) (ho n hn) v hmv hnv⟩
+
+/-! ### `extra` variant: inversion -/
+
+theorem Atom.invert_denX {a b : Atom} (ha : a.isEqNe = true) (h : a.invert = .ok b) (E : String → Bool) :
+    b.denX E = !a.denX E := by
+  obtain ⟨av, o, x⟩ := a
+  rcases isEqNe_iff.mp ha with h1 | h1 <;> simp only at h1 <;> subst h1 <;>
+    simp only [Op.inv_eq, Op.inv_ne, Except.ok.injEq] at h <;> subst h <;> simp [Atom.denX]
+
+theorem GC.atomsQ_of_frag (c : GC) (h : c.frag = true) : c.atomsQ (fun a => a.isEqNe = true) := by
+  cases c with
+  | s c =>
+    cases c with
+    | any => trivial
+    | empty => trivial
+    | atom a => exact h
+    | multi x cs => simpa [GC.atomsQ, GS.atomsQ, GC.frag, GS.frag] using h
+  | union ms =>
+    simp only [GC.frag, List.all_eq_true] at h
+    intro m hm
+    have := h m hm
+    cases m with
+    | any => trivial
+    | empty => trivial
+    | atom a => exact this
+    | multi x cs => simpa [GS.atomsQ, GS.frag] using this
+
+theorem GC.invert_X (c r : GC) (hc : c.frag = true) (h : c.invert = .ok r) (E : String → Bool) :
+    r.denX E = !c.denX E :=
+  GC.invert_sem (fun a => a.denX E) (fun a => a.isEqNe = true) (fun a b ha hab => Atom.invert_denX ha hab E) c
+    (GC.atomsQ_of_frag c hc) r h
+
+theorem GS.frag_of_wfX {c : GS} (h : c.wfX = true) : c.frag = true := by
+  cases c with
+  | any => rfl
+  | empty => rfl
+  | atom a => simp only [GS.wfX, Bool.and_eq_true] at h; exact h.2
+  | multi x cs =>
+    simp only [GS.wfX, Bool.and_eq_true, List.all_eq_true] at h
+    simp only [GS.frag, List.all_eq_true]
+    exact fun c hc => (h.1.2 c hc).2
+
+theorem GC.frag_of_wfX {c : GC} (h : c.wfX = true) : c.frag = true := by
+  cases c with
+  | s c => exact GS.frag_of_wfX h
+  | union ms =>
+    simp only [GC.wfX, Bool.and_eq_true, List.all_eq_true] at h
+    simp only [GC.frag, List.all_eq_true]
+    exact fun m hm => GS.frag_of_wfX (h.2 m hm)
+
+/-! ## `extra` variant: atom and multi level -/
+
+def FX (f : Atom → Bool) : Prop := ∃ E : String → Bool, f = fun a => a.denX E
+
+theorem wfX_atom {a : Atom} (h : (GS.atom a).wfX = true) : a.x = true ∧ a.isEqNe = true := by
+  simpa [GS.wfX] using h
+
+theorem wfX_multi {x : Bool} {cs : List Atom} (h : (GS.multi x cs).wfX = true) :
+    x = true ∧ (∀ c ∈ cs, c.x = true ∧ c.isEqNe = true) ∧ (cs.map (fun c => c.value)).Nodup := by
+  simp only [GS.wfX, Bool.and_eq_true, List.all_eq_true, decide_eq_true_eq] at h
+  exact ⟨h.1.1, h.1.2, h.2⟩
+
+theorem wfX_multi_mk {cs : List Atom} (h1 : ∀ c ∈ cs, c.x = true ∧ c.isEqNe = true)
+    (h2 : (cs.map (fun c => c.value)).Nodup) : (GS.multi true cs).wfX = true := by
+  simp only [GS.wfX, Bool.and_eq_true, List.all_eq_true, decide_eq_true_eq]
+  exact ⟨⟨trivial, h1⟩, h2⟩
+
+/-- two `extra` atoms on the same value are equal or complementary -/
+theorem xAtom_same_value {a o : Atom} (ha : a.x = true ∧ a.isEqNe = true) (ho : o.x = true ∧ o.isEqNe = true)
+    (hv : a.value = o.value) : a = o ∨ (a.op ≠ o.op ∧ ∀ E, a.denX E = !o.denX E) := by
+  obtain ⟨av, aop, ax⟩ := a; obtain ⟨ov, oop, ox⟩ := o
+  simp only at hv ha ho; subst hv
+  obtain ⟨rfl, ha⟩ := ha; obtain ⟨rfl, ho⟩ := ho
+  rcases isEqNe_iff.mp ha with h | h <;> rcases isEqNe_iff.mp ho with h' | h' <;> simp only at h h' <;>
+    subst h <;> subst h' <;> simp [Atom.denX]
+
+theorem Atom.intersectA_X (a o : Atom) (ha : (GS.atom a).wfX = true) (ho : (GS.atom o).wfX = true) :
+    ∃ r, a.intersectA o = .ok r ∧ r.wfX = true ∧ ∀ E, r.denX E = (a.denX E && o.denX E) := by
+  have ha' := wfX_atom ha
+  have ho' := wfX_atom ho
+  unfold Atom.intersectA
+  rw [if_pos ha'.1]
+  by_cases h1 : (o == a) = true
+  · rw [if_pos h1]
+    have : o = a := by simpa using h1
+    subst this
+    exact ⟨_, rfl, ha, fun E => by simp [GS.denX, GS.sem]⟩
+  · rw [if_neg h1]
+    have hne : ¬ a = o := fun e => h1 (by simp [e])
+    by_cases h2 : (a.value == o.value && a.op != o.op) = true
+    · rw [if_pos h2]
+      simp only [Bool.and_eq_true, beq_iff_eq] at h2
+      rcases xAtom_same_value ha' ho' h2.1 with h | ⟨_, h⟩
+      · exact absurd h hne
+      · exact ⟨_, rfl, rfl, fun E => by simp [GS.denX, GS.sem, h E]⟩
+    · rw [if_neg h2]
+      have hv : a.value ≠ o.value := by
+        intro e
+        rcases xAtom_same_value ha' ho' e with h | ⟨h, _⟩
+        · exact hne h
+        · apply h2; simp [e, h]
+      rw [mkMulti_true_ok _ (by intro c hc; simp at hc; rcases hc with rfl | rfl; exact ha'.2; exact ho'.2)]
+      refine ⟨_, rfl, wfX_multi_mk ?_ ?_, fun E => by simp [GS.denX, GS.sem]⟩
+      · intro c hc; simp at hc; rcases hc with rfl | rfl; exact ha'; exact ho'
+      · simp [hv]
+
+theorem Atom.unionA_X (a o : Atom) (ha : (GS.atom a).wfX = true) (ho : (GS.atom o).wfX = true) :
+    ∃ r, a.unionA o = .ok r ∧ r.wfX = true ∧ ∀ E, r.denX E = (a.denX E || o.denX E) := by
+  have ha' := wfX_atom ha
+  have ho' := wfX_atom ho
+  unfold Atom.unionA
+  rw [if_pos ha'.1]
+  by_cases h1 : (o == a) = true
+  · rw [if_pos h1]
+    have : o = a := by simpa using h1
+    subst this
+    exact ⟨_, rfl, ha, fun E => by simp [GC.denX, GC.sem, GS.sem]⟩
+  · rw [if_neg h1]
+    have hne : ¬ a = o := fun e => h1 (by simp [e])
+    by_cases h2 : (a.value == o.value && a.op != o.op) = true
+    · rw [if_pos h2]
+      simp only [Bool.and_eq_true, beq_iff_eq] at h2
+      rcases xAtom_same_value ha' ho' h2.1 with h | ⟨_, h⟩
+      · exact absurd h hne
+      · exact ⟨_, rfl, rfl, fun E => by simp [GC.denX, GC.sem, GS.sem, h E]⟩
+    · rw [if_neg h2]
+      refine ⟨_, rfl, ?_, fun E => by simp [GC.denX, GC.sem, GS.sem]⟩
+      simp only [GC.wfX, List.isEmpty_cons, Bool.not_false, List.all_cons, List.all_nil, Bool.and_true,
+        Bool.true_and, Bool.and_eq_true]
+      exact ⟨ha, ho⟩
+
+theorem Atom.invert_X_ok {o : Atom} (ho : o.x = true ∧ o.isEqNe = true) :
+    ∃ i, o.invert = .ok i ∧ i.x = true ∧ i.isEqNe = true ∧ i.value = o.value ∧ i.op ≠ o.op ∧
+      ∀ E, i.denX E = !o.denX E := by
+  obtain ⟨ov, oop, ox⟩ := o
+  obtain ⟨h1, h2⟩ := ho
+  simp only at h1; subst h1
+  rcases isEqNe_iff.mp h2 with h | h <;> simp only at h <;> subst h
+  · exact ⟨_, Op.inv_eq ov true, rfl, rfl, rfl, by simp, fun E => by simp [Atom.denX]⟩
+  · exact ⟨_, Op.inv_ne ov true, rfl, rfl, rfl, by simp, fun E => by simp [Atom.denX]⟩
+
+theorem multiIntersectA_X (cs : List Atom) (o : Atom) (hcs : (GS.multi true cs).wfX = true)
+    (ho : (GS.atom o).wfX = true) :
+    ∃ r, multiIntersectA true cs o = .ok r ∧ r.wfX = true ∧
+      ∀ E, r.denX E = (cs.all (fun c => c.denX E) && o.denX E) := by
+  obtain ⟨_, hcs1, hcs2⟩ := wfX_multi hcs
+  have ho' := wfX_atom ho
+  unfold multiIntersectA
+  by_cases h1 : cs.contains o = true
+  · rw [if_pos h1]
+    refine ⟨_, rfl, hcs, fun E => ?_⟩
+    simp only [GS.denX, GS.sem]
+    exact (all_and_of_mem _ cs o (by simpa using h1)).symm
+  · rw [if_neg h1]
+    have hcond : ¬ (o.op == Op.eq && !(multiOps true).contains "==") = true := by
+      simp [multiOps_true]
+    rw [if_neg hcond]
+    obtain ⟨i, hi, hix, hie, hiv, hiop, hiden⟩ := Atom.invert_X_ok ho'
+    rw [hi]
+    simp only
+    by_cases h2 : cs.contains i = true
+    · rw [if_pos h2]
+      refine ⟨_, rfl, rfl, fun E => ?_⟩
+      have him : i ∈ cs := by simpa using h2
+      simp only [GS.denX, GS.sem]
+      cases hov : o.denX E
+      · simp
+      · have : cs.all (fun c => c.denX E) = false := by
+          simp only [List.all_eq_false]; exact ⟨i, him, by simp [hiden E, hov]⟩
+        simp [this]
+    · rw [if_neg h2]
+      have hall : ∀ c ∈ cs ++ [o], c.x = true ∧ c.isEqNe = true := by
+        intro c hc
+        rcases List.mem_append.mp hc with h | h
+        · exact hcs1 c h
+        · simp at h; subst h; exact ho'
+      rw [mkMulti_true_ok _ (fun c hc => (hall c hc).2)]
+      refine ⟨_, rfl, wfX_multi_mk hall ?_, fun E => by simp [GS.denX, GS.sem, List.all_append]⟩
+      rw [List.map_append, List.nodup_append]
+      refine ⟨hcs2, by simp, ?_⟩
+      intro a ha b hb
+      simp only [List.map_cons, List.map_nil, List.mem_singleton] at hb
+      subst hb
+      simp only [List.mem_map] at ha
+      obtain ⟨c, hc, hcv⟩ := ha
+      intro e
+      rcases xAtom_same_value (hcs1 c hc) ho' (hcv.trans e) with h | ⟨h, _⟩
+      · apply h1; simpa [h] using hc
+      · -- c is the inverse of o
+        apply h2
+        have : c = i := by
+          rcases xAtom_same_value (hcs1 c hc) ⟨hix, hie⟩ ((hcv.trans e).trans hiv.symm) with h' | ⟨h', _⟩
+          · exact h'
+          · exfalso
+            have hc2 := isEqNe_iff.mp (hcs1 c hc).2
+            have ho2 := isEqNe_iff.mp ho'.2
+            have hi2 := isEqNe_iff.mp hie
+            rcases hc2 with a1 | a1 <;> rcases ho2 with a2 | a2 <;> rcases hi2 with a3 | a3 <;> simp_all
+        simpa [this] using hc
+
+theorem eqNeClash_iff (l : List Atom) :
+    eqNeClash l = true ↔ ∃ c ∈ l, ∃ d ∈ l, c.op = .eq ∧ d.op = .ne ∧ d.value = c.value := by
+  simp only [eqNeClash, List.any_eq_true, List.mem_filter, beq_iff_eq]
+  constructor
+  · rintro ⟨c, ⟨hc, hce⟩, d, ⟨hd, hdn⟩, hv⟩
+    refine ⟨c, hc, d, hd, ?_, ?_, hv⟩
+    · cases h : c.op <;> simp [h, Op.str] at hce ⊢
+    · cases h : d.op <;> simp [h, Op.str] at hdn ⊢
+  · rintro ⟨c, hc, d, hd, hce, hdn, hv⟩
+    exact ⟨c, ⟨hc, by simp [hce, Op.str]⟩, d, ⟨hd, by simp [hdn, Op.str]⟩, hv⟩
+
+theorem multiIntersectM_X (cs ds : List Atom) (hcs : (GS.multi true cs).wfX = true)
+    (hds : (GS.multi true ds).wfX = true) :
+    ∃ r, multiIntersectM true cs ds = .ok r ∧ r.wfX = true ∧
+      ∀ E, r.denX E = (cs.all (fun c => c.denX E) && ds.all (fun c => c.denX E)) := by
+  obtain ⟨_, hcs1, hcs2⟩ := wfX_multi hcs
+  obtain ⟨_, hds1, hds2⟩ := wfX_multi hds
+  unfold multiIntersectM
+  by_cases hcl : eqNeClash (cs ++ ds) = true
+  · rw [if_pos (by simp [hcl])]
+    refine ⟨_, rfl, rfl, fun E => ?_⟩
+    obtain ⟨c, hc, d, hd, hce, hdn, hv⟩ := (eqNeClash_iff _).mp hcl
+    rw [← List.all_append]
+    simp only [GS.denX, GS.sem]
+    symm
+    simp only [List.all_eq_false]
+    by_cases hE : E c.value = true
+    · exact ⟨d, hd, by simp [Atom.denX, hdn, hv, hE]⟩
+    · exact ⟨c, hc, by simp [Atom.denX, hce, hE]⟩
+  · rw [if_neg (by simp [hcl])]
+    have hall : ∀ c ∈ cs ++ ds.filter (fun c => !cs.contains c), c.x = true ∧ c.isEqNe = true := by
+      intro c hc
+      rcases List.mem_append.mp hc with h | h
+      · exact hcs1 c h
+      · exact hds1 c (List.mem_filter.mp h).1
+    rw [mkMulti_true_ok _ (fun c hc => (hall c hc).2)]
+    refine ⟨_, rfl, wfX_multi_mk hall ?_, fun E => ?_⟩
+    · rw [List.map_append, List.nodup_append]
+      refine ⟨hcs2, ?_, ?_⟩
+      · exact List.Nodup.sublist (List.Sublist.map _ List.filter_sublist) hds2
+      · intro a ha b hb e
+        simp only [List.mem_map, List.mem_filter, Bool.not_eq_true', List.contains_eq_mem,
+          decide_eq_false_iff_not] at ha hb
+        obtain ⟨c, hc, hcv⟩ := ha
+        obtain ⟨d, ⟨hd, hdn⟩, hdv⟩ := hb
+        rcases xAtom_same_value (hcs1 c hc) (hds1 d hd) (by rw [hcv, hdv, e]) with h | ⟨h, _⟩
+        · exact hdn (h ▸ hc)
+        · apply hcl
+          rw [eqNeClash_iff]
+          have hc2 := isEqNe_iff.mp (hcs1 c hc).2
+          have hd2 := isEqNe_iff.mp (hds1 d hd).2
+          have hcv' : c.value = d.value := by rw [hcv, hdv, e]
+          rcases hc2 with a1 | a1 <;> rcases hd2 with a2 | a2
+          · exact absurd (a1.trans a2.symm) h
+          · exact ⟨c, by simp [hc], d, by simp [hd], a1, a2, hcv'.symm⟩
+          · exact ⟨d, by simp [hd], c, by simp [hc], a2, a1, hcv'⟩
+          · exact absurd (a1.trans a2.symm) h
+    · simp only [GS.denX, GS.sem]
+      exact all_append_filter_not_mem _ cs ds
+
+theorem all_of_subsetL_or (f : Atom → Bool) (cs ds : List Atom) (h : subsetL cs ds = true) :
+    (cs.all f || ds.all f) = cs.all f := by
+  cases hd : ds.all f
+  · simp
+  · simp [all_of_subset f cs ds h hd]
+
+theorem multiUnionM_X (cs ds : List Atom) (y : Bool) (hcs : (GS.multi true cs).wfX = true)
+    (hds : (GS.multi y ds).wfX = true) :
+    ∃ r, multiUnionM true cs y ds = .ok r ∧ r.wfX = true ∧
+      ∀ E, r.denX E = (cs.all (fun c => c.denX E) || ds.all (fun c => c.denX E)) := by
+  unfold multiUnionM
+  rw [if_pos rfl]
+  by_cases h1 : subsetL cs ds = true
+  · rw [if_pos h1]
+    exact ⟨_, rfl, hcs, fun E => by simp only [GC.denX, GC.sem, GS.sem]; exact (all_of_subsetL_or _ cs ds h1).symm⟩
+  · rw [if_neg h1]
+    by_cases h2 : subsetL ds cs = true
+    · rw [if_pos h2]
+      exact ⟨_, rfl, hds, fun E => by
+        simp only [GC.denX, GC.sem, GS.sem]; rw [Bool.or_comm]; exact (all_of_subsetL_or _ ds cs h2).symm⟩
+    · rw [if_neg h2]
+      refine ⟨_, rfl, ?_, fun E => by simp [GC.denX, GC.sem, GS.sem]⟩
+      simp only [GC.wfX, List.isEmpty_cons, Bool.not_false, List.all_cons, List.all_nil, Bool.and_true,
+        Bool.true_and, Bool.and_eq_true]
+      exact ⟨hcs, hds⟩
+
+theorem eraseDups_of_nodup : ∀ (l : List String), l.Nodup → l.eraseDups = l := by
+  intro l
+  induction l with
+  | nil => intro _; exact List.eraseDups_nil
+  | cons a l ih =>
+    intro h
+    rw [List.nodup_cons] at h
+    rw [List.eraseDups_cons]
+    have : l.filter (fun b => !b == a) = l := by
+      rw [List.filter_eq_self]
+      intro b hb
+      simp only [Bool.not_eq_true', beq_eq_false_iff_ne, ne_eq]
+      intro e; exact h.1 (e ▸ hb)
+    rw [this, ih h.2]
+
+theorem multiUnionA_X (cs : List Atom) (o : Atom) (hcs : (GS.multi true cs).wfX = true)
+    (ho : (GS.atom o).wfX = true) :
+    ∃ r, multiUnionA true cs o = .ok r ∧ r.wfX = true ∧
+      ∀ E, r.denX E = (cs.all (fun c => c.denX E) || o.denX E) := by
+  obtain ⟨_, hcs1, hcs2⟩ := wfX_multi hcs
+  have ho' := wfX_atom ho
+  unfold multiUnionA
+  rw [if_pos rfl]
+  by_cases h1 : cs.contains o = true
+  · rw [if_pos h1]
+    refine ⟨_, rfl, ho, fun E => ?_⟩
+    have hm : o ∈ cs := by simpa using h1
+    simp only [GC.denX, GC.sem, GS.sem]
+    cases hall : cs.all (fun c => c.denX E)
+    · simp
+    · simp only [List.all_eq_true] at hall; simp [hall o hm]
+  · rw [if_neg h1]
+    by_cases h2 : ((cs.map (fun c => c.value)).eraseDups.length == 2 &&
+        (cs.map (fun c => c.value)).contains o.value) = true
+    · rw [if_pos h2]
+      rw [eraseDups_of_nodup _ hcs2] at h2
+      simp only [Bool.and_eq_true, beq_iff_eq, List.length_map, List.contains_eq_mem, decide_eq_true_eq] at h2
+      obtain ⟨hlen, hmem⟩ := h2
+      obtain ⟨c1, c2, rfl⟩ : ∃ c1 c2, cs = [c1, c2] := by
+        match cs, hlen with
+        | [c1, c2], _ => exact ⟨c1, c2, rfl⟩
+      have hc1 := hcs1 c1 (by simp)
+      have hc2 := hcs1 c2 (by simp)
+      have hno1 : ¬ c1 = o := fun e => h1 (by simp [e])
+      have hno2 : ¬ c2 = o := fun e => h1 (by simp [e])
+      have hdist : c1.value ≠ c2.value := by
+        simp only [List.map_cons, List.map_nil, List.nodup_cons, List.mem_singleton] at hcs2
+        exact hcs2.1
+      simp only [List.map_cons, List.map_nil, List.mem_cons, List.not_mem_nil, or_false] at hmem
+      have wfu : ∀ c : Atom, c.x = true ∧ c.isEqNe = true → (GC.union [.atom c, .atom o]).wfX = true := by
+        intro c hc
+        simp only [GC.wfX, List.isEmpty_cons, Bool.not_false, List.all_cons, List.all_nil, Bool.and_true,
+          Bool.true_and, Bool.and_eq_true, GS.wfX]
+        exact ⟨by simp [hc.1, hc.2], by simp [ho'.1, ho'.2]⟩
+      rcases hmem with e | e
+      · -- c1 carries o's value: it is o's complement and is dropped
+        have hf : [c1, c2].filter (fun c => c.value != o.value) = [c2] := by
+          have a1 : (c1.value != o.value) = false := by simp [e]
+          have a2 : (c2.value != o.value) = true := by
+            simp only [bne_iff_ne, ne_eq]; intro e2; exact hdist (e ▸ e2.symm)
+          simp [List.filter, a1, a2]
+        rw [hf]
+        rcases xAtom_same_value hc1 ho' e.symm with h | ⟨_, h⟩
+        · exact absurd h hno1
+        · refine ⟨_, rfl, wfu c2 hc2, fun E => ?_⟩
+          simp only [List.map_cons, List.map_nil, List.cons_append, List.nil_append, GC.denX, GC.sem, GS.sem,
+            List.any_cons, List.any_nil, List.all_cons, List.all_nil, Bool.or_false, Bool.and_true, h E]
+          cases o.denX E <;> cases c2.denX E <;> rfl
+      · have hf : [c1, c2].filter (fun c => c.value != o.value) = [c1] := by
+          have a2 : (c2.value != o.value) = false := by simp [e]
+          have a1 : (c1.value != o.value) = true := by
+            simp only [bne_iff_ne, ne_eq]; intro e1; exact hdist (e ▸ e1)
+          simp [List.filter, a1, a2]
+        rw [hf]
+        rcases xAtom_same_value hc2 ho' e.symm with h | ⟨_, h⟩
+        · exact absurd h hno2
+        · refine ⟨_, rfl, wfu c1 hc1, fun E => ?_⟩
+          simp only [List.map_cons, List.map_nil, List.cons_append, List.nil_append, GC.denX, GC.sem, GS.sem,
+            List.any_cons, List.any_nil, List.all_cons, List.all_nil, Bool.or_false, Bool.and_true, h E]
+          cases o.denX E <;> cases c1.denX E <;> rfl
+    · rw [if_neg h2]
+      refine ⟨_, rfl, ?_, fun E => by simp [GC.denX, GC.sem, GS.sem]⟩
+      simp only [GC.wfX, List.isEmpty_cons, Bool.not_false, List.all_cons, List.all_nil, Bool.and_true,
+        Bool.true_and, Bool.and_eq_true]
+      exact ⟨hcs, ho⟩
+
+theorem GS.intersectS_X (a b : GS) (ha : a.wfX = true) (hb : b.wfX = true) :
+    ∃ r, a.intersectS b = .ok r ∧ r.wfX = true ∧ ∀ E, r.denX E = (a.denX E && b.denX E) := by
+  cases a with
+  | any => exact ⟨b, rfl, hb, fun E => by simp [GS.denX, GS.sem]⟩
+  | empty => exact ⟨.empty, rfl, rfl, fun E => by simp [GS.denX, GS.sem]⟩
+  | atom a =>
+    cases b with
+    | any => exact ⟨_, rfl, ha, fun E => by simp [GS.denX, GS.sem]⟩
+    | empty => exact ⟨.empty, rfl, rfl, fun E => by simp [GS.denX, GS.sem]⟩
+    | atom o => exact Atom.intersectA_X a o ha hb
+    | multi x cs =>
+      obtain rfl := (wfX_multi hb).1
+      obtain ⟨r, h1, h2, h3⟩ := multiIntersectA_X cs a hb ha
+      exact ⟨r, h1, h2, fun E => by rw [h3 E, Bool.and_comm]; rfl⟩
+  | multi x cs =>
+    obtain rfl := (wfX_multi ha).1
+    cases b with
+    | any => exact ⟨_, rfl, ha, fun E => by simp [GS.denX, GS.sem]⟩
+    | empty => exact ⟨.empty, rfl, rfl, fun E => by simp [GS.denX, GS.sem]⟩
+    | atom o => exact multiIntersectA_X cs o ha hb
+    | multi y ds =>
+      obtain rfl := (wfX_multi hb).1
+      exact multiIntersectM_X cs ds ha hb
+
+theorem GS.unionS_X (a b : GS) (ha : a.wfX = true) (hb : b.wfX = true) :
+    ∃ r, a.unionS b = .ok r ∧ r.wfX = true ∧ ∀ E, r.denX E = (a.denX E || b.denX E) := by
+  cases a with
+  | any => exact ⟨.any, rfl, rfl, fun E => by simp [GS.denX, GC.denX, GC.sem, GS.sem]⟩
+  | empty => exact ⟨.s b, rfl, hb, fun E => by simp [GS.denX, GC.denX, GC.sem, GS.sem]⟩
+  | atom a =>
+    cases b with
+    | any => exact ⟨.any, rfl, rfl, fun E => by simp [GS.denX, GC.denX, GC.sem, GS.sem]⟩
+    | empty => exact ⟨_, rfl, ha, fun E => by simp [GS.denX, GC.denX, GC.sem, GS.sem]⟩
+    | atom o => exact Atom.unionA_X a o ha hb
+    | multi x cs =>
+      obtain rfl := (wfX_multi hb).1
+      obtain ⟨r, h1, h2, h3⟩ := multiUnionA_X cs a hb ha
+      exact ⟨r, h1, h2, fun E => by rw [h3 E, Bool.or_comm]; rfl⟩
+  | multi x cs =>
+    obtain rfl := (wfX_multi ha).1
+    cases b with
+    | any => exact ⟨.any, rfl, rfl, fun E => by simp [GS.denX, GC.denX, GC.sem, GS.sem]⟩
+    | empty => exact ⟨_, rfl, ha, fun E => by simp [GS.denX, GC.denX, GC.sem, GS.sem]⟩
+    | atom o => exact multiUnionA_X cs o ha hb
+    | multi y ds => exact multiUnionM_X cs ds y ha hb
+
+theorem Pc_wfX (c : GC) : Pc (fun c => c.wfX = true) c ↔ c.wfX = true := by
+  cases c with
+  | s c => rfl
+  | union ms =>
+    simp only [Pc, GC.wfX, Bool.and_eq_true, Bool.not_eq_true', List.all_eq_true, ne_eq]
+    constructor
+    · rintro ⟨h1, h2⟩; exact ⟨by cases ms <;> simp_all, h2⟩
+    · rintro ⟨h1, h2⟩; exact ⟨by cases ms <;> simp_all, h2⟩
+
+theorem algX : MemberAlg (fun c => c.wfX = true) FX where
+  empty := rfl
+  atoms := fun x cs h c hc => by
+    have := (wfX_multi h).2.1 c hc
+    simp [GS.wfX, this.1, this.2]
+  inter := fun a b ha hb => by
+    obtain ⟨r, h1, h2, h3⟩ := GS.intersectS_X a b ha hb
+    exact ⟨r, h1, h2, fun f ⟨E, hf⟩ => by subst hf; exact h3 E⟩
+  union := fun a b ha hb => by
+    obtain ⟨r, h1, h2, h3⟩ := GS.unionS_X a b ha hb
+    exact ⟨r, h1, (Pc_wfX r).mpr h2, fun f ⟨E, hf⟩ => by subst hf; exact h3 E⟩
+
+theorem GC.intersect_X (a b : GC) (ha : a.wfX = true) (hb : b.wfX = true) :
+    ∃ r, a.intersect b = .ok r ∧ r.wfX = true ∧ ∀ E, r.denX E = (a.denX E && b.denX E) := by
+  obtain ⟨r, h1, h2, h3⟩ := GC.intersect_exact algX rfl a b ((Pc_wfX a).mpr ha) ((Pc_wfX b).mpr hb)
+  exact ⟨r, h1, (Pc_wfX r).mp h2, fun E => h3 _ ⟨E, rfl⟩⟩
+
+theorem GC.unionWith_X (a b : GC) (ha : a.wfX = true) (hb : b.wfX = true) :
+    ∃ r, a.unionWith b = .ok r ∧ r.wfX = true ∧ ∀ E, r.denX E = (a.denX E || b.denX E) := by
+  obtain ⟨r, h1, h2, h3⟩ := GC.unionWith_exact algX rfl a b ((Pc_wfX a).mpr ha) ((Pc_wfX b).mpr hb)
+  exact ⟨r, h1, (Pc_wfX r).mp h2, fun E => h3 _ ⟨E, rfl⟩⟩
+
+/-! ### the `extra` parser only produces well-formed constraints -/
+
+theorem mapE_all {α β : Type} (f : α → PyM β) (Q : β → Prop) (hf : ∀ a b, f a = .ok b → Q b) :
+    ∀ (l : List α) (r : List β), mapE f l = .ok r → (∀ b ∈ r, Q b) ∧ r.length = l.length := by
+  intro l
+  induction l with
+  | nil => intro r h; cases h; exact ⟨by simp, rfl⟩
+  | cons a l ih =>
+    intro r h
+    simp only [mapE] at h
+    cases ha : f a with
+    | error e => simp [ha] at h
+    | ok b =>
+      cases hl : mapE f l with
+      | error e => simp [ha, hl] at h
+      | ok bs =>
+        simp only [ha, hl, Except.ok.injEq] at h
+        subst h
+        obtain ⟨h1, h2⟩ := ih bs hl
+        refine ⟨?_, by simp [h2]⟩
+        intro c hc
+        simp only [List.mem_cons] at hc
+        rcases hc with rfl | hc
+        · exact hf a _ ha
+        · exact h1 c hc
+
+theorem Atom.mk?_true_wfX {v s : String} {a : Atom} (h : Atom.mk? true v s = .ok a) :
+    (GS.atom a).wfX = true := by
+  unfold Atom.mk? at h
+  simp only at h
+  split at h
+  · cases h
+  · rename_i o _
+    split at h
+    · cases h
+    · rename_i hc
+      cases h
+      cases o <;> simp [Op.str] at hc <;> simp [GS.wfX, Atom.isEqNe]
+
+theorem parseSingle_true_wfX {cs : List Char} {a : Atom} (h : parseSingle true cs = .ok a) :
+    (GS.atom a).wfX = true := by
+  unfold parseSingle at h
+  split at h
+  · exact Atom.mk?_true_wfX h
+  · split at h
+    · exact Atom.mk?_true_wfX h
+    · cases h
+
+theorem parseGroup_true_wfX {g : List Char} {c : GS} (h : parseGroup true g = .ok c) : c.wfX = true := by
+  unfold parseGroup at h
+  cases hm : mapE (parseSingle true) (reSplit sepComma g) with
+  | error e => simp [hm] at h
+  | ok l =>
+    simp only [hm] at h
+    have hall := (mapE_all (parseSingle true) (fun a => (GS.atom a).wfX = true)
+      (fun _ _ hab => parseSingle_true_wfX hab) _ l hm).1
+    match l, h, hall with
+    | [], h, _ => dsimp only at h; cases h
+    | a :: as, h, hall =>
+      obtain ⟨r, h1, h2, _⟩ := foldIntersect_exact algX as (fun d hd => hall d (by simp [hd])) (.atom a)
+        (hall a (by simp))
+      dsimp only at h; rw [h1] at h; cases h; exact h2
+
+theorem splitBy_ne_nil (sep : List Char → Option (List Char)) :
+    ∀ (n : Nat) (l acc : List Char), splitBy sep n l acc ≠ [] := by
+  intro n
+  induction n with
+  | zero => intro l acc; simp [splitBy]
+  | succ n ih =>
+    intro l acc
+    cases l with
+    | nil => simp [splitBy]
+    | cons c cs =>
+      simp only [splitBy]
+      cases sep (c :: cs) with
+      | some rest => simp
+      | none => exact ih cs (c :: acc)
+
+theorem parseExtra_wfX (s : String) (c : GC) (h : parseExtraConstraint s = .ok c) : c.wfX = true := by
+  unfold parseExtraConstraint parseWith at h
+  split at h
+  · cases h; rfl
+  · cases hm : mapE (parseGroup true) (reSplit sepOr (strip s.toList)) with
+    | error e => simp [hm] at h
+    | ok l =>
+      simp only [hm] at h
+      obtain ⟨hall, hlen⟩ := mapE_all (parseGroup true) (fun c => c.wfX = true)
+        (fun _ _ hab => parseGroup_true_wfX hab) _ l hm
+      match l, h, hall, hlen with
+      | [g], h, hall, _ => cases h; exact hall g (by simp)
+      | [], h, _, hlen =>
+        exfalso
+        have := splitBy_ne_nil sepOr ((strip s.toList).length + 1) (strip s.toList) []
+        unfold reSplit at hlen
+        simp only [List.length_nil] at hlen
+        exact this (List.length_eq_zero_iff.mp hlen.symm)
+      | a :: b :: t, h, hall, _ =>
+        cases h
+        simp only [GC.wfX, List.isEmpty_cons, Bool.not_false, Bool.true_and, List.all_eq_true]
+        exact hall
+
 end Poetry.Generic
